@@ -296,6 +296,25 @@ func runC11(c *rt.Ctx) {
 			}
 		}
 	}
+	// ---- (a3) consistent frames announcing a big value of which only a part arrives --------------
+	// (the announced size is within what may be allocated; the stream ends early)
+	for _, proto := range []string{"binary", "text"} {
+		for _, announced := range []int{70000, 1048577, 2097152} {
+			for _, kind := range []string{"set", "append"} {
+				full := wire.Encode(proto, wire.Op{Kind: kind, Key: "big", Val: string(wire.GenValue(announced, 3))})
+				for _, arrive := range []int{64, 4096, 65536, 1048576, 1048577 + 4096, announced - 1} {
+					if arrive >= len(full) {
+						continue
+					}
+					item++
+					if !c.Mine(item) {
+						continue
+					}
+					try(BadInput{Proto: proto, Bytes: full[:arrive], KeepOpen: false, Tag: fmt.Sprintf("bigvalue-cut op=%s", kind)})
+				}
+			}
+		}
+	}
 	// ---- (b) mutations of valid requests -------------------------------------------------------
 	for _, proto := range []string{"binary", "text"} {
 		for _, op := range repOps(proto) {
